@@ -11,6 +11,10 @@ from .boot import priv, M, HarnessError
 LEADER = 2
 
 
+class RunAbort(Exception):
+    """The run is stopped for a resource reason: neither a pass nor a violation."""
+
+
 def wchoice(rng, items):
     """items: list of (weight, value)"""
     tot = 0.0
@@ -35,7 +39,7 @@ DEFAULT_SCHED = dict(
     max_subs=150,
     pads=[0, 0, 0, 10, 100],
     connect_timeout=8.0,
-    backlog_cap=1 << 19,
+    backlog_cap=1 << 17,
     max_down=None,           # at most this many voters down at once (None: all may be down)
     quiet_rounds=0,
     orphan_children=True,
@@ -58,7 +62,7 @@ def draw_common(rng, nv=None, compaction=None, small_batches=None):
     if small_batches is None:
         small_batches = rng.random() < 0.4
     if small_batches:
-        conf['appendEntriesBatchSizeBytes'] = rng.choice([1, 7, 64, 200, 1024])
+        conf['appendEntriesBatchSizeBytes'] = rng.choice([1, 30, 64, 64, 200, 200, 1024, 1024] if rng.random() < 0.1 else [30, 64, 64, 200, 200, 1024])
     if compaction is None:
         compaction = rng.random() < 0.6
     if compaction:
@@ -73,7 +77,7 @@ def draw_common(rng, nv=None, compaction=None, small_batches=None):
     conf['commandsWaitLeader'] = rng.random() < 0.7
     cfg = dict(n_voters=n, n_ro=0, conf=conf,
                cap=rng.choice([1 << 16, 1 << 16, 1 << 12, 1 << 20, 600, 200]),
-               cpu_cost=rng.choice([5e-5, 1e-4, 1e-4, 3e-4]),
+               cpu_cost=rng.choice([1e-4, 2e-4, 2e-4, 5e-4]),
                poll_shuffle=rng.random() < 0.3,
                short_write=rng.random() < 0.2,
                clock_rates=[rng.choice([1.0, 1.0, 0.95, 1.05, 0.9, 1.1]) for _ in range(8)] if rng.random() < 0.5 else None,
@@ -130,10 +134,25 @@ class Scheduler(object):
         self.step += 1
         dt = rng.choice(s['dts'])
         net = w.net
-        if self.step % 64 == 0 and self.drain == 0:
+        if self.step % 32 == 0 and self.drain == 0:
             if net.backlog() > s['backlog_cap'] or self._wbuf() > s['backlog_cap']:
                 self.drain = 200
                 w.probe('drain_mode')
+                if self._wbuf() > s.get('abort_backlog', 1 << 19):
+                    raise RunAbort('backlog')
+                if w.groups is not None or self.held or any(p.held for p in net.pipes.values()):
+                    # the backlog sits behind a partition or a held pipe: the fault ends here
+                    # (TcpConnection buffers without limit; see DESIGN 2.7)
+                    self.held = []
+                    return [dt, 'heal']
+        # a fork child is a running process: it is not stalled for longer than child_max_delay
+        for h in w.hosts:
+            ch = h.forkemu.children
+            if ch:
+                for pid in ch:
+                    c = ch[pid]
+                    if c['ops'] and w.T - c.get('t_start', w.T) > s.get('child_max_delay', 0.2):
+                        return [0.0, 'child', h.idx]
         live = net.live_pipes()
         if self.drain > 0:
             self.drain -= 1
